@@ -39,23 +39,32 @@ except ImportError:
 def _iter_chain(exc, custom_tb=None, seen=None):
     if seen is None:
         seen = set()
-    # exceptions need not be hashable: remember them by identity
-    seen.add(id(exc))
-    its = []
-    context = exc.__context__
-    cause = exc.__cause__
-    if cause is not None and id(cause) not in seen:
-        its.append(_iter_chain(cause, False, seen))
-        its.append([(traceback._cause_message, None)])
-    elif (context is not None and
-            not exc.__suppress_context__ and
-            id(context) not in seen):
-        its.append(_iter_chain(context, None, seen))
-        its.append([(traceback._context_message, None)])
-    its.append([(exc, custom_tb or exc.__traceback__)])
-    # itertools.chain is in an extension module and may be unavailable
-    for it in its:
-        yield from it
+    # Walk down the chain iteratively (it may be arbitrarily long) and
+    # remember for each exception how it is linked to the one before it.
+    chain = []
+    tb = custom_tb
+    while True:
+        # exceptions need not be hashable: remember them by identity
+        seen.add(id(exc))
+        context = exc.__context__
+        cause = exc.__cause__
+        if cause is not None and id(cause) not in seen:
+            chain.append((exc, tb or exc.__traceback__,
+                          traceback._cause_message))
+            exc, tb = cause, False
+        elif (context is not None and
+                not exc.__suppress_context__ and
+                id(context) not in seen):
+            chain.append((exc, tb or exc.__traceback__,
+                          traceback._context_message))
+            exc, tb = context, None
+        else:
+            chain.append((exc, tb or exc.__traceback__, None))
+            break
+    for exc, tb, message in reversed(chain):
+        if message is not None:
+            yield message, None
+        yield exc, tb
 
 
 def format_exception(t, value=_sentinel, tb=_sentinel, limit=None, chain=None):
